@@ -123,7 +123,7 @@ fn world(x: [i32; 3], sw: i32) -> World {
 type Deps = Rc<RefCell<Vec<(u8, Dependency<i32>, Rc<Cell<Option<i32>>>)>>>;
 
 /// the dynamic sum: dependencies are added and removed from the function of a child
-fn dyn_sum(w: &World, ctl: &Var<Ctl>) -> (Incr<i32>, Deps) {
+fn dyn_sum(w: &World, ctl: &Var<Ctl>) -> (Incr<i32>, Deps, Incr<()>) {
     let deps: Deps = Rc::new(RefCell::new(vec![]));
     let state = w.st.weak();
     let sum = Node::<i32>::new_(&state, {
@@ -187,7 +187,7 @@ fn dyn_sum(w: &World, ctl: &Var<Ctl>) -> (Incr<i32>, Deps) {
         }
     });
     sum.add_dependency(&lhs_change);
-    (sum.watch(), deps)
+    (sum.watch(), deps, lhs_change)
 }
 
 /// join / bind written with the expert API, as in the repository's tests
@@ -250,10 +250,12 @@ pub fn run_c14(bytes: &[u8], tier: Tier) -> Outcome {
         let ctl_var = w.st.var(ctl.clone());
         let sel_var = w.st.var(0i32);
         let chosen = Rc::new(Cell::new(0u8));
+        let mut controller: Option<Incr<()>> = None;
         let (node, deps): (Incr<i32>, Option<Deps>) = if mode_bind {
             (expert_bind(&sel_var.watch(), w.pool.clone(), w.slot.clone(), chosen.clone()), None)
         } else {
-            let (n, d) = dyn_sum(&w, &ctl_var);
+            let (n, d, c) = dyn_sum(&w, &ctl_var);
+            controller = Some(c);
             (n, Some(d))
         };
         let above = node.map(|v| v + 1);
@@ -279,6 +281,16 @@ pub fn run_c14(bytes: &[u8], tier: Tier) -> Outcome {
             None
         };
         let mut gate_cases_closing_child_ran = 0u64;
+        // decoder 4, a third of the dynamic sums: the dependency-editing child has an observer of its
+        // own, so that it keeps running (adding, removing, make_stale, invalidate) while the expert
+        // node itself is not needed
+        let ctl_obs: Option<Observer<()>> = if crate::choice::dv() >= 4 && !gated && !mode_bind && ch.flag(1, 3) {
+            trace.push("(the dependency-editing child has an observer of its own)".into());
+            controller.as_ref().map(|c| c.observe())
+        } else {
+            None
+        };
+        let mut edits_while_unneeded = 0u64;
         let mut obs: Option<(Observer<i32>, Observer<i32>)> = None;
         let mut sel_val = 0i32;
         // model of the expert node
@@ -412,7 +424,8 @@ pub fn run_c14(bytes: &[u8], tier: Tier) -> Outcome {
             // node stopped being needed depends on heights; take it from the instrumentation
             let closing = gated && !gate_open && gate_was_open;
             gate_was_open = gate_open;
-            if !observed_now && !closing {
+            let only_child = !observed_now && !closing;
+            if only_child && ctl_obs.is_none() {
                 continue;
             }
             // the child function has processed the latest control value
@@ -471,6 +484,19 @@ pub fn run_c14(bytes: &[u8], tier: Tier) -> Outcome {
                 }
                 processed_ctl = ctl.clone();
             }
+            if only_child {
+                // only the child was needed: the dependency set moved on without the expert node
+                if child_fn_runs {
+                    edits_while_unneeded += 1;
+                }
+                INCOHERENT.with(|v| v.borrow_mut().clear());
+                if invalid {
+                    // the child invalidated the node: it is not its child any more and must stop
+                    // editing it (the documented rule); the history ends here
+                    return;
+                }
+                continue;
+            }
             if closing {
                 // the node may have recomputed before it stopped being needed: the callbacks it had
                 // seen by then must have been coherent, and it must not have run twice
@@ -519,8 +545,9 @@ pub fn run_c14(bytes: &[u8], tier: Tier) -> Outcome {
                     });
                     return;
                 }
-                if gated {
-                    // the gate's bind is now invalid for good
+                if gated || ctl_obs.is_some() {
+                    // the gate's bind is now invalid for good / the separately observed child would
+                    // go on editing a node that is no longer its parent
                     return;
                 }
             } else {
@@ -562,6 +589,7 @@ pub fn run_c14(bytes: &[u8], tier: Tier) -> Outcome {
             ("cases_ending_invalid", invalid as u64),
             ("cases_bind_mode", mode_bind as u64),
             ("cases_needed_only_through_a_gate_bind", gated as u64),
+            ("rounds_in_which_the_child_edited_dependencies_of_the_unneeded_node", edits_while_unneeded),
             ("gate_closing_rounds_in_which_the_child_function_still_ran", gate_cases_closing_child_ran),
             ("stabilises", rounds),
             ("edge_callbacks", CALLBACKS.with(|c| c.replace(0)) as u64),
